@@ -379,10 +379,12 @@ def OH.hasOpaque : OH → Bool
 
 /-- What `Column.Apply1` hands back (an `interface{}`). -/
 inductive AVal where
-  | ints (l : List Int)
-  | floats (l : List UInt64)
-  | bools (l : List Bool)
-  | strs (l : List (Option Bytes))
+  /-- a `[]int`, `[]float64`, `[]bool`, `[]*string`: the elements as cells (what the observation functions see; the glue looks
+  only at the type of the slice, so the element representation is the one of the loop terms, `QF.LOutcome.arr`) -/
+  | ints (l : List Cell)
+  | floats (l : List Cell)
+  | bools (l : List Cell)
+  | strs (l : List Cell)
   | col (c : LCol)
   /-- a value of any other type -/
   | other
